@@ -77,7 +77,7 @@ for d in sorted(glob.glob("/tmp/seed-out/C*C*/C*-?") + glob.glob("/tmp/seed-out/
                       "then seed 1 if silent); git -C /repo checkout -- ." % prop,
                       "caught": caught, "violation_keys": keys[:12]},
     }
-    if sid[-1] not in "ab":
+    if sid.split("-")[1][0] not in "ab":
         out["check_run"]["what_i_ran"] = ("tools/seed_par.sh: scratch worktree of /repo + patch.diff, private build/output directories "
                                           "(VERIF_REPO/VERIF_BUILD/VERIF_OUT); ./check %s --tier quick with seeds 12648430, 1, 2 until one fires" % prop)
         out["confirmation"]["what_i_ran"] = out["confirmation"]["what_i_ran"].replace("tools/seed_confirm.sh", "tools/seed_par.sh (same steps as tools/seed_confirm.sh)")
@@ -90,7 +90,7 @@ with open(os.path.join(V, "seeded", "INDEX.md"), "w") as f:
     f.write("# Seeded breaking changes and which check catches them\n\n"
             "Each change compiles, passes the 19-test suite and fails its own demonstration only with the change applied "
             "(confirmed by `tools/seed_confirm.sh` / `tools/seed_par.sh`). `caught` = the property's quick check exits 1 with the "
-            "keys listed (ids ending in a/b: round 1, run by applying the change to /repo and restoring it; c/d/e: round 2, "
+            "keys listed (ids ending in a/b: round 1, run by applying the change to /repo and restoring it; c/d/e: round 2, f/g: round 3, both "
             "run in a scratch worktree with private build and output directories, seeds 12648430, 1, 2 until one fires). "
             "Where the check of the property a change was written for does not catch it, the check that does is named; "
             "`meta.json` of each change has the details (`other_checks_that_catch_it` lists cross-property runs).\n\n"
